@@ -47,7 +47,8 @@ theorem stage_ok (db : DB) (b : Batch) (hm : (keys b.matched).Nodup) (hok : (ste
     ∃ o : StageOut,
       (step db (.stage b)).1 =
         { db with events := db.events ++ o.es, pendingId := some b.id, pendingAccts := some o.pa,
-                  pendingOrders := some o.po, pendingSnap := some o.snap } ∧
+                  pendingOrders := some o.po, pendingSnap := some o.snap,
+                  noRefs := db.noRefs.filter (fun k => !(b.matched.map (·.1)).contains k) } ∧
       AllStored o.pa ∧ (keys o.pa).Nodup ∧ (keys o.po).Nodup ∧ o.snap.id = b.id ∧ o.snap.matched = b.matched ∧
       (∀ n, lookup n o.po = (lookup n b.matched).bind (fun us => (lookup n db.orders).map (fun x => filled x us))) ∧
       (∀ n us, lookup n b.matched = some us → ∃ x, lookup n db.orders = some x ∧
@@ -76,8 +77,9 @@ theorem stage_ok (db : DB) (b : Batch) (hm : (keys b.matched).Nodup) (hok : (ste
           have hzip : a.orders.zip a.orderMods = lo := by rw [← hs]; exact zip_map_fst_snd lo
           have hid : a.batchId = b.id := by rw [← hs]
           have hmt : a.matched = b.matched := by rw [← hs]
+          have hords : a.orders = b.matched.map (·.1) := by rw [← hs]; exact prepOrders_keys hpo
           refine ⟨o, ?_, h6, h7, h8, by rw [h1, hid], by rw [h3, hmt], ?_, ?_⟩
-          · simp only [commit, hid]
+          · simp only [commit, hid, hords]
           · intro n
             rw [h9 n, hzip, prepOrders_lastFor hpo hm n]
             cases hl : lookup n b.matched with
@@ -113,13 +115,15 @@ theorem C13_fill_exact (db : DB) (b : Batch) (hm : (keys b.matched).Nodup)
   obtain ⟨o, hd, hst, _, hnd, _, _, hpo, hev⟩ := stage_ok db b hm hok
   have hd1 : db1 =
       { db with events := db.events ++ o.es, pendingId := some b.id, pendingAccts := some o.pa,
-                pendingOrders := some o.po, pendingSnap := some o.snap } := hd
+                pendingOrders := some o.po, pendingSnap := some o.snap,
+                noRefs := db.noRefs.filter (fun k => !(b.matched.map (·.1)).contains k) } := hd
   have hp : HasPending db1 ⟨b.id, o.pa, o.po, o.snap⟩ := by rw [hd1]; exact ⟨rfl, rfl, rfl, rfl⟩
   have hm2 := markBatchComplete_pending hp hst
   have h2 : db2 =
       { db1 with accounts := over o.pa db1.accounts, orders := over o.po db1.orders,
                  pendingId := none, pendingAccts := none, pendingOrders := none, pendingSnap := none,
-                 snaps := db1.snaps ++ [o.snap], index := upsert b.id (db1.snaps.length + 1) db1.index } := by
+                 snaps := db1.snaps ++ [o.snap], index := upsert b.id (db1.snaps.length + 1) db1.index,
+                 noRefs := db1.noRefs ++ (keys o.po).filter (fun k => (lookup k db1.orders).isNone) } := by
     show (commit db1 (markBatchCompleteTx db1)).1 = _
     rw [hm2]; rfl
   have hres : (step db1 .complete).2 = none := by
@@ -202,7 +206,8 @@ theorem inv_step {db0 db : DB} {g : Ghost} (h : Inv db0 db g) (op : Op)
       have hstep : step db .complete =
           ({ db with accounts := over st.accts db.accounts, orders := over st.orders db.orders,
                      pendingId := none, pendingAccts := none, pendingOrders := none, pendingSnap := none,
-                     snaps := db.snaps ++ [st.snap], index := upsert st.id (db.snaps.length + 1) db.index },
+                     snaps := db.snaps ++ [st.snap], index := upsert st.id (db.snaps.length + 1) db.index,
+                     noRefs := db.noRefs ++ (keys st.orders).filter (fun k => (lookup k db.orders).isNone) },
            none) := by
         show commit db (markBatchCompleteTx db) = _
         rw [hm2]; rfl
